@@ -211,7 +211,11 @@ func (o Op) String() string {
 		}
 		return fmt.Sprintf("Set%s(%d)", d.Name, o.N)
 	case "userprops":
-		return fmt.Sprintf("AddUserProp(%d pairs)", len(o.KV))
+		d := fmt.Sprintf("AddUserProp(%d pairs:", len(o.KV))
+		for _, kv := range o.KV {
+			d += fmt.Sprintf(" %d+%d", len(kv[0]), len(kv[1]))
+		}
+		return d + " bytes)"
 	case "will":
 		return fmt.Sprintf("SetWill(qos %d retain %v)", o.Will.QoS, o.Will.Retain)
 	case "editlist":
@@ -227,7 +231,11 @@ func (o Op) String() string {
 	case "rewill":
 		return fmt.Sprintf("change the attached will (qos %d retain %v payload %d bytes) and SetWill(it) again", o.Will.QoS, o.Will.Retain, len(o.Will.Payload))
 	case "filters":
-		return fmt.Sprintf("AddFilters(%d)", len(o.Fs))
+		d := fmt.Sprintf("AddFilters(%d:", len(o.Fs))
+		for _, f := range o.Fs {
+			d += fmt.Sprintf(" %d bytes/opts %#x", len(f.Name), f.Opts)
+		}
+		return d + ")"
 	case "cleanstart", "dup", "retain", "sessionpresent":
 		return fmt.Sprintf("%s(%v)", o.Kind, o.Flag)
 	}
@@ -699,7 +707,18 @@ func Apply(p mq.Packet, o Op) error {
 			}
 			fs := make([]mq.TopicFilter, len(o.Fs))
 			for i, f := range o.Fs {
-				if i%2 == 0 {
+				if (len(f.Name)+int(f.Opts))%3 == 1 {
+					// a filter value that was made for another subscription (every option set:
+					// QoS 2, no local, retain as published, retain handling 2) and is then
+					// given this one's name and options through its setters
+					other := "other/" + string(f.Name)
+					if len(other) > 65535 {
+						other = "other"
+					}
+					fs[i] = mq.NewTopicFilter(other, mq.Opt(0x2E))
+					fs[i].SetFilter(string(f.Name))
+					fs[i].SetOptions(mq.Opt(f.Opts))
+				} else if i%2 == 0 {
 					fs[i] = mq.NewTopicFilter(string(f.Name), mq.Opt(f.Opts))
 				} else {
 					fs[i].SetFilter(string(f.Name))
